@@ -250,21 +250,27 @@ looking_at(const char *s, const size_t n, const size_t i)
 void
 sx_destroy(struct sx_node **n)
 {
+    /* Walk along the cdr chain in a loop, so that a list of any length is
+     * released in constant stack space; only nesting (car) recurses. */
     struct sx_node *node = *n;
-    if (node == NULL)
-        return;
 
-    if (node->type == SXT_PAIR) {
-        sx_destroy(&node->data.pair->car);
-        sx_destroy(&node->data.pair->cdr);
-        free(node->data.pair);
-        node->data.pair = NULL;
-    } else if (node->type == SXT_SYMBOL) {
-        free(node->data.symbol);
-        node->data.symbol = NULL;
+    while (node != NULL) {
+        struct sx_node *next = NULL;
+
+        if (node->type == SXT_PAIR) {
+            sx_destroy(&node->data.pair->car);
+            next = node->data.pair->cdr;
+            free(node->data.pair);
+            node->data.pair = NULL;
+        } else if (node->type == SXT_SYMBOL) {
+            free(node->data.symbol);
+            node->data.symbol = NULL;
+        }
+
+        free(node);
+        node = next;
     }
 
-    free(node);
     *n = NULL;
 }
 
@@ -339,38 +345,48 @@ static struct sx_parse_result sx_parse_(const char*, size_t, size_t);
 static struct sx_parse_result sx_parse_list(const char*, size_t, size_t);
 
 static struct sx_parse_result
-sx_parse_list(const char *s, const size_t n, const size_t i)
+sx_parse_list(const char *s, const size_t n, size_t i)
 {
-    if (i >= n) {
-        struct sx_parse_result rv = SX_PARSE_RESULT_INIT;
-        rv.status = SXS_UNEXPECTED_END;
+    /* The elements of a list are collected in a loop, so that a list of any
+     * length is read in constant stack space; only nesting recurses. tail
+     * is where the next cons cell, the terminating empty list, or whatever
+     * a failing element left behind, is linked in. */
+    struct sx_parse_result rv = SX_PARSE_RESULT_INIT;
+    struct sx_node *head = NULL;
+    struct sx_node **tail = &head;
+
+    for (;;) {
+        struct sx_parse_result item = SX_PARSE_RESULT_INIT;
+
+        if (i >= n) {
+            item.status = SXS_UNEXPECTED_END;
+        } else {
+            const size_t j = skip_ws(s, n, i);
+            if (j >= n) {
+                item.position = j;
+                item.status = SXS_UNEXPECTED_END;
+            } else if (s[j] == ')') {
+                /* End of this list. A nested "()" is an element (handled by
+                 * sx_parse_() below) and must not be mistaken for it. */
+                item = sx_parse_token(s, n, j);
+            } else {
+                item = sx_parse_(s, n, j);
+                if (result_is_error(&item) == false) {
+                    struct sx_node *cons = sx_cons(item.node, NULL);
+                    *tail = cons;
+                    tail = &cons->data.pair->cdr;
+                    i = item.position;
+                    continue;
+                }
+            }
+        }
+
+        *tail = item.node;
+        rv.node = head;
+        rv.position = item.position;
+        rv.status = item.status;
         return rv;
     }
-    const size_t j = skip_ws(s, n, i);
-    if (j >= n) {
-        struct sx_parse_result rv = SX_PARSE_RESULT_INIT;
-        rv.position = j;
-        rv.status = SXS_UNEXPECTED_END;
-        return rv;
-    }
-    if (s[j] == ')') {
-        /* End of this list. A nested "()" is an element (handled by
-         * sx_parse_() below) and must not be mistaken for it. */
-        return sx_parse_token(s, n, j);
-    }
-    struct sx_parse_result carres = sx_parse_(s, n, j);
-    if (result_is_error(&carres)) {
-        return carres;
-    }
-
-    struct sx_parse_result cdrres = sx_parse_list(s, n, carres.position);
-    struct sx_node *cons = sx_cons(carres.node, cdrres.node);
-
-    carres.node = cons;
-    carres.position = cdrres.position;
-    carres.status = cdrres.status;
-
-    return carres;
 }
 
 static struct sx_parse_result
